@@ -84,6 +84,7 @@ func init() {
 		ruleListStoresFilter(e, r)
 		ruleEveryTupleContributesModule(e, r)
 		ruleListStoresIDsPredicate(e, r)
+		ruleAuthzRequestsPinModel(e, r)
 		r.Rule("apimethod-total", "Authorizer.getRelation handles every apimethod.APIMethod constant; unknown methods are an error", 1)
 		nAPI := 0
 		for _, s := range e.valueSwitches() {
@@ -147,6 +148,7 @@ func init() {
 		ruleKeyCanonicalOrder(e, r)
 		ruleKeyHasStore(e, r)
 		ruleEncodeNotEmptinessConditional(e, r)
+		ruleDigestFedFramedBytes(e, r)
 	})
 }
 
@@ -356,6 +358,7 @@ func init() {
 		// ownership there is checked by ruleBottomUpOwnership instead.
 		ruleMessageIterators(e, r, []string{"internal/graph"})
 		ruleBottomUpOwnership(e, r)
+		ruleBackgroundDrainStopsInner(e, r)
 	})
 }
 
@@ -367,6 +370,7 @@ func init() {
 			return p == "pkg/storage" || p == "pkg/storage/sqlcommon" || p == "pkg/storage/sqlite" || strings.HasPrefix(p, "pkg/storage/storagewrappers")
 		}, "iterator-state-guarded", 20)
 		ruleSharedFillContext(e, r)
+		ruleFilterChainShortCircuits(e, r)
 	})
 	describe("C23", meta{
 		Decides:    "(1) every iterator adapter's Stop stops every iterator it holds; (2) a stateful de-duplication filter is the last filter of its chain (F5); (3) every access to adapter state documented GUARDED_BY(mu) happens with the mutex held (flow-sensitive must-lockset, helpers checked at their call sites); (4) the shared iterator fills its shared buffer under context.Background().",
@@ -394,6 +398,7 @@ func init() {
 		ruleExpand(e, r)
 		ruleReadSitesFiltered(e, r, map[string]bool{"expand": true}, 2)
 		ruleMutatingCommandPerRequest(e, r)
+		ruleCancelIsNotEndOfData(e, r)
 	})
 	describe("C30", meta{
 		Decides:    "resolveUserset dispatches all six rewrite kinds (default fails) to resolvers that build the node kind of the same name, named toObjectRelation(tk); Difference keeps [base, subtract] order end to end and resolveUsersets stores child i at index i; the two leaf readers pass FilterInvalidTuples, collect through a set, and resolveThis sorts users on every path to the leaf; contextual tuples are validated and read through (C18, C04 rules).",
@@ -431,6 +436,7 @@ func init() {
 		ruleListUsers(e, r)
 		ruleReadSitesFiltered(e, r, map[string]bool{"v1": true}, 8)
 		ruleExcludedUsersForwarded(e, r)
+		ruleCancelIsNotEndOfData(e, r)
 	})
 	describe("C06", meta{
 		Decides:    "expandRewrite is total over rewrite kinds; expand evaluates a rewrite only behind !enteredCycle with a key of object and relation; both datastore reads pass the model filter and a condition evaluation with the error consumed; intersection bookkeeping gives one vote per operand (counts change by exactly 1, send only when count+wildcards == operands); the wildcard-base branch of exclusion reports a positive only when neither the user nor the wildcard is subtracted (reviewed reference).",
